@@ -105,6 +105,12 @@ func (km *keyManager) AggregateRandomSeed(h primitives.BlockHeight, shares []*pr
 	if len(s0) != 64 {
 		return primitives.RandomSeedSignature("garbage")
 	}
+	// every pair handed over has to be a share: a member id and 64 bytes over the same seed digest
+	for _, sh := range shares {
+		if len(sh.MemberId()) == 0 || len(sh.Signature()) != 64 || !bytes.Equal(sh.Signature()[32:], s0[32:]) {
+			return primitives.RandomSeedSignature("garbage")
+		}
+	}
 	return primitives.RandomSeedSignature(mac("M", km.kr.master, 0, s0[32:]))
 }
 
